@@ -114,10 +114,31 @@ class Units:
     split of a pot over boards, hand types and winners is a whole number of units."""
     den = 1
     FINE = 2 ** 4 * 3 ** 3 * 5 * 7          # 15120
+    kind = 'fraction'                       # chip type of a fractional run: 'fraction' | 'float' | 'decimal'
+
+    @staticmethod
+    def conv(x):
+        """a whole or binary-exact amount as the chip type of the run (float and Decimal hold k/2^m exactly)"""
+        f = Fraction(x)
+        if Units.kind == 'float':
+            r = float(f)
+        elif Units.kind == 'decimal':
+            from decimal import Decimal
+            r = Decimal(f.numerator) / Decimal(f.denominator)
+        else:
+            return f
+        if Fraction(r) != f:
+            raise OffGrid(f'{x!r} is not exact as {Units.kind}')
+        return r
 
     @staticmethod
     def make(v):
-        return Fraction(v, Units.den)
+        return Units.conv(Fraction(v, Units.den))
+
+
+class OffGrid(ValueError):
+    """a chip value of a float/Decimal run that is not a whole number of logging units (a pot divided by 3, 5, 7 in binary or
+    decimal floating point is rounded): the hand cannot be logged exactly and is left out, counted"""
 
 
 def chip(v) -> int:
@@ -127,7 +148,7 @@ def chip(v) -> int:
         return v * Units.den
     f = Fraction(v) * Units.den
     if f.denominator != 1:
-        raise ValueError(f'chip value {v!r} not on the 1/{Units.den} grid')
+        raise OffGrid(f'chip value {v!r} not on the 1/{Units.den} grid')
     return int(f)
 
 
